@@ -86,6 +86,16 @@ Proof. exact EvictHost.dreach_OrdH. Qed.
 Theorem C07_order_invariant_preserved_by_settle : forall fuel c H H',
   settle fuel c H = Some H' -> EvictHost.OrdH H -> EvictHost.OrdH H'.
 Proof. exact EvictHost.OrdH_settle. Qed.
+(* ... and of every state an app under a CORE can reach (any app, any history of shell calls, any fuel): through
+   Stream::poll_next on a top-level command, QueuingExecutor::run_task / run_all, CommandSpawner::spawn, the event
+   loop, resolve and drop.  So eviction soundness above applies to every state of a running core. *)
+From Crux Require Rt.CoreOrd.
+Theorem C07_order_invariant_under_a_core : forall FUEL hs k,
+  CoreOrd.creach FUEL hs (core0) k -> EvictHost.OrdH (k_H k).
+Proof. exact CoreOrd.core_reachable_OrdH. Qed.
+Theorem C07_order_invariant_preserved_by_core_call : forall FUEL hs a k o k',
+  cstep FUEL hs a k = Some (o, k') -> EvictHost.OrdH (k_H k) -> EvictHost.OrdH (k_H k').
+Proof. exact CoreOrd.cstep_OrdH. Qed.
 
 (* A finished task stays finished and a task that is gone stays gone, through every step of the runtime on
    any command (so a JoinHandle that has once seen its task finish, or its task dropped, is never blocked
